@@ -31,6 +31,8 @@ Obs(q) == [first |-> (IF Len(q) = 0 THEN Refused ELSE q[Len(q)]),       \* the n
            riter |-> [i \in 1..Len(q) |-> q[Len(q) + 1 - i]],          \* --end() .. begin(), read through operator->
            post |-> q,                                                \* the same walk with it++
            rpost |-> [i \in 1..Len(q) |-> q[Len(q) + 1 - i]],         \* from the last position down to begin(), reading the value of it--
+           fwalk |-> q,                                               \* read *it, then the statement it++, from begin() to end()
+           rwalk |-> [i \in 1..Len(q) |-> q[Len(q) + 1 - i]],         \* read *it, then the statement it--, from the last position down
            eqd |-> [i \in 1..(Len(q) + 1) |-> TRUE],                   \* position(i) == position(i) and not !=, i in 0..size
            eqo |-> [i \in 1..Len(q) |-> FALSE],                        \* position(i) == position(i+1)
            bend |-> <<TRUE, TRUE, Len(q) = 0>>,                        \* begin() == position(0), end() == position(size), begin() == end()
